@@ -168,9 +168,18 @@ func (g *gen) structDef(name string, top bool) *Def {
 	if g.r.Chance(9, 10) && n == 0 {
 		n = 1
 	}
+	if g.r.Chance(1, 8) {
+		// a wide record of fixed-size fields: sizes beyond 255 bytes, field counts beyond 16
+		n = g.r.Range(18, 40)
+		fixed := []string{"guid", "float64", "int64", "uint64", "date", "uint32", "guid", "guid"}
+		for i := 0; i < n; i++ {
+			d.Fields = append(d.Fields, Field{Name: g.nm.fresh(false), Type: Type{Prim: fixed[g.r.Intn(len(fixed))]}})
+		}
+		return d
+	}
 	for i := 0; i < n; i++ {
 		f := Field{Name: g.nm.fresh(false), Type: g.fieldType(0, KStruct, name)}
-		f.Deprecated = g.r.Chance(1, 20)
+		f.Deprecated = g.r.Chance(1, 10)
 		d.Fields = append(d.Fields, f)
 	}
 	return d
